@@ -12,6 +12,7 @@ formatUnformattableEvent / eventAsText) is the real Python code run on the symbo
 values come from a solver-chosen menu of hostile objects.  Replay runs the plain interpreter with the
 real C functions.
 """
+import os
 import string as _stringmod
 import sys
 
@@ -37,7 +38,7 @@ ENCODED = ["twisted.logger._format:formatEvent", "twisted.logger._format:_format
            "twisted.logger._flatten:KeyFlattener",
            "twisted.python.log:textFromEventDict", "twisted.python.log:_safeFormat",
            "twisted.python.reflect:safe_repr", "twisted.python.reflect:safe_str"]
-BOUNDS = {"quick": {"n": 4, "m": 4}, "thorough": {"n": 5, "m": 6}}
+BOUNDS = {"quick": {"n": 3, "m": 3, "f": 2}, "thorough": {"n": 4, "m": 4, "f": 3}}
 B = {}
 
 ALPHA = "{}!:.[]()ab0rs"
@@ -277,6 +278,7 @@ def _install_builtin_checks():
     format() no longer realises the object / the format spec when the object's __format__ is Python
     code or object.__format__ (= `str(obj)` for an empty spec, TypeError otherwise)."""
     import types
+    import crosshair.core_and_libs  # noqa: F401  (fills the patch registry)
     from crosshair import core as _core
     from crosshair.libimpl import builtinslib as bl
     from crosshair.tracers import NoTracing
@@ -333,7 +335,42 @@ def _install_builtin_checks():
             raise TypeError("__format__ must return a str, not %s" % _tname(r))
         return r
 
-    reg[repr], reg[str], reg[format] = p_repr, p_str, p_format
+    ch_getattr = reg[getattr]
+
+    def p_getattr(obj, name, *default):
+        # getattr() with a symbolic attribute name on a plain object: compare the name with the
+        # attributes the object has (one fork per candidate of the same length) and fall through
+        # to the class's __getattr__ hook / AttributeError with the name still symbolic, instead
+        # of one path per concrete name
+        with NoTracing():
+            sym = isinstance(name, bl.AnySymbolicStr) and not isinstance(obj, bl.CrossHairValue)
+            names, hook = (), None
+            if sym:
+                ga = None
+                for klass in type(obj).__mro__:
+                    if ga is None and "__getattribute__" in klass.__dict__:
+                        ga = klass.__dict__["__getattribute__"]
+                    if hook is None and "__getattr__" in klass.__dict__:
+                        hook = klass.__dict__["__getattr__"]
+                sym = ga is object.__getattribute__
+                if sym:
+                    names = [k for k in dir(obj) if type(k) is str]
+        if not sym:
+            return ch_getattr(obj, name, *default)
+        n = len(name)
+        for k in names:
+            if len(k) == n and name == k:
+                return getattr(obj, k, *default)
+        try:
+            if hook is not None:
+                return hook(obj, name)
+            raise AttributeError("'%s' object has no attribute <symbolic name>" % _tname(obj))
+        except AttributeError:
+            if default:
+                return default[0]
+            raise
+
+    reg[repr], reg[str], reg[format], reg[getattr] = p_repr, p_str, p_format, p_getattr
 
 
 _cf_seen = []
@@ -542,16 +579,34 @@ def _value(k):
 _MISSING = object()
 
 
+class _ScanDict(dict):
+    """the event dict under the solver: lookup of a symbolic str key is a linear scan with `==`
+    (one fork per key of the event) instead of hashing, which realises the key (one path per field
+    name).  Replay uses a plain dict."""
+
+    def __getitem__(self, key):
+        if type(key) is str or not isinstance(key, str):
+            return dict.__getitem__(self, key)
+        for k in list(dict.keys(self)):
+            if type(k) is str and len(k) == len(key) and key == k:
+                return dict.__getitem__(self, k)
+        raise KeyError(key)
+
+
+def _event(d):
+    return _ScanDict(d) if api.MODE == "sym" else d
+
+
 def _set(event, key, v):
     if v is not _MISSING:
         event[key] = v
 
 
-NTIME = 9
+NTIME = 8
 
 
 def _time(k):
-    return (_MISSING, None, 0.0, 1.5e9, "abc", 1e18, float("nan"), 2 ** 70, BadNumber())[k]
+    return (_MISSING, None, 0.0, 1.5e9, "abc", 1e18, float("nan"), 2 ** 70)[k]
 
 
 NSYS = 6
@@ -644,11 +699,10 @@ def _text_or_none(fn, *a, **kw):
 
 
 def _fmt_checks(event):
-    if not _text(F.formatEvent, event):
-        return False
-    if not _text_or_none(F.formatEventAsClassicLogText, event):
-        return False
-    return True
+    # formatEventAsClassicLogText = eventAsText with every part switched on = _formatEvent (all that
+    # formatEvent runs) + time stamp + system + line folding; formatEvent itself and the other flag
+    # combinations are called in `as_text`
+    return _text_or_none(F.formatEvent if os.environ.get('A19_FE') else F.formatEventAsClassicLogText, event)
 
 
 def fmt_event(fmt: str, va: int, vb: int) -> bool:
@@ -659,7 +713,7 @@ def fmt_event(fmt: str, va: int, vb: int) -> bool:
     post: _
     """
     # the whole format string is symbolic
-    event = {"log_format": fmt, "a": _value(va), "b": _value(vb)}
+    event = _event({"log_format": fmt, "a": _value(va), "b": _value(vb)})
     cover()
     return _fmt_checks(event)
 
@@ -673,7 +727,7 @@ def field_event(body: str, va: int, vb: int) -> bool:
     """
     # one replacement field with symbolic content (field name with lookups / call syntax,
     # conversion, format spec - or anything else, braces included) between literal text
-    event = {"log_format": "<{" + body + "}>", "a": _value(va), "b": _value(vb)}
+    event = _event({"log_format": "<{" + body + "}>", "a": _value(va), "b": _value(vb)})
     cover()
     return _fmt_checks(event)
 
@@ -681,12 +735,12 @@ def field_event(body: str, va: int, vb: int) -> bool:
 def flat_event(body: str, va: int, how: int) -> bool:
     """
     pre: 0 <= va < NVAL and 0 <= how <= 5
-    pre: len(body) <= B['m']
+    pre: len(body) <= B['f'] and (how == 0 or len(body) <= 1)
     pre: _in_alpha(body)
     post: _
     """
     # events carrying "log_flattened": as produced by the real flattenEvent (how == 0), or odd
-    event = {"log_format": "{" + body + "}.", "a": _value(va), "b": 1}
+    event = _event({"log_format": "{" + body + "}.", "a": _value(va), "b": 1})
     if how == 0:
         try:
             _FL.flattenEvent(event)
@@ -759,32 +813,49 @@ def _format_menu(k):
     return "{a!r:>{b}} {b()}"
 
 
-def as_text(fsel: int, va: int, tb: bool, ts: bool, sy: bool, tsel: int, ssel: int, nsel: int, lsel: int,
-            fail: int) -> bool:
+def as_text(fsel: int, va: int, tb: bool, fail: int) -> bool:
     """
-    pre: 0 <= fsel < NFMT and 0 <= va < NVAL and 0 <= tsel < NTIME and 0 <= ssel < NSYS
-    pre: 0 <= nsel < NSYS and 0 <= lsel < NLEVEL and 0 <= fail < NFAIL
+    pre: 0 <= fsel < NFMT and 0 <= va < NVAL and 0 <= fail < NFAIL
     post: _
     """
-    # eventAsText with every flag combination and odd log_format / log_time / log_system /
-    # log_namespace / log_level / log_failure values (menus; the solver drives the case split)
+    # formatEvent / eventAsText: odd log_format values (missing, None, empty, bytes valid / invalid
+    # utf-8, non-strings) x hostile value x traceback requested or not x odd log_failure values
+    # (menus; the solver drives the case split)
     event = {"a": _value(va), "b": 3}
     _set(event, "log_format", _format_menu(fsel))
+    _set(event, "log_failure", _fail(fail))
+    cover()
+    if not _text(F.formatEvent, event):
+        return False
+    if not _text(F.eventAsText, event, includeTraceback=tb, includeTimestamp=False, includeSystem=False):
+        return False
+    if not _text_or_none(F.formatEventAsClassicLogText, event):
+        return False
+    if "log_failure" in event and not _text(F._formatTraceback, event["log_failure"]):
+        return False
+    return True
+
+
+def sys_fields(empty: bool, ts: bool, sy: bool, tsel: int, ssel: int, nsel: int, lsel: int) -> bool:
+    """
+    pre: 0 <= tsel < NTIME and 0 <= ssel < NSYS and 0 <= nsel < NSYS and 0 <= lsel < NLEVEL
+    post: _
+    """
+    # time stamp and system parts of eventAsText / formatEventAsClassicLogText with odd log_time /
+    # log_system / log_namespace / log_level values, and formatTime / _formatSystem directly
+    event = {"log_format": "" if empty else "text"}
     _set(event, "log_time", _time(tsel))
     _set(event, "log_system", _sys(ssel))
     _set(event, "log_namespace", _sys(nsel))
     _set(event, "log_level", _level(lsel))
-    _set(event, "log_failure", _fail(fail))
     cover()
-    if not _text(F.eventAsText, event, includeTraceback=tb, includeTimestamp=ts, includeSystem=sy):
+    if not _text(F.eventAsText, event, includeTraceback=True, includeTimestamp=ts, includeSystem=sy):
         return False
     if not _text_or_none(F.formatEventAsClassicLogText, event):
         return False
     if not _text(F.formatTime, event.get("log_time")):
         return False
     if not _text(F._formatSystem, event):
-        return False
-    if "log_failure" in event and not _text(F._formatTraceback, event["log_failure"]):
         return False
     return True
 
@@ -796,14 +867,7 @@ def _legacy_format(k):
     return ("%(a)s", "%(a)r and %(b)d", "%(zz)s", "%", "%(a", b"%(a)s", 5, None, "plain", "%(a)d")[k]
 
 
-def legacy_text(msel: int, va: int, fsel: int, iserr: bool, fail: int, wsel: int) -> bool:
-    """
-    pre: 0 <= msel <= 3 and 0 <= va < NVAL and 0 <= fsel <= NLEG and 0 <= fail < NFAIL and 0 <= wsel <= 3
-    post: _
-    """
-    # twisted.python.log.textFromEventDict (legacy observers): "%"-formats (concrete menu: the
-    # printf-style formatter is C code) with hostile values, messages, failures, "why"
-    ed = {"isError": 1 if iserr else 0, "a": _value(va), "b": 3}
+def _legacy_message(ed, msel, va):
     if msel == 0:
         ed["message"] = ()
     elif msel == 1:
@@ -812,8 +876,35 @@ def legacy_text(msel: int, va: int, fsel: int, iserr: bool, fail: int, wsel: int
         ed["message"] = (BadStr(), b"\xff", NonText())
     else:
         ed["message"] = ""
+
+
+def legacy_format(msel: int, va: int, fsel: int) -> bool:
+    """
+    pre: 0 <= msel <= 3 and 0 <= va < NVAL and 0 <= fsel <= NLEG
+    post: _
+    """
+    # twisted.python.log.textFromEventDict / _safeFormat (legacy observers): "%"-formats (concrete
+    # menu: the printf-style formatter is C code) with hostile values and message tuples
+    ed = {"isError": 0, "a": _value(va), "b": 3}
+    _legacy_message(ed, msel, va)
     if fsel < NLEG:
         ed["format"] = _legacy_format(fsel)
+    cover()
+    if not _text_or_none(_tlog.textFromEventDict, ed):
+        return False
+    if "format" in ed and not _text(_tlog._safeFormat, ed["format"], ed):
+        return False
+    return True
+
+
+def legacy_error(msel: int, fail: int, wsel: int, iserr: bool) -> bool:
+    """
+    pre: 0 <= msel <= 3 and 0 <= fail < NFAIL and 0 <= wsel <= 3
+    post: _
+    """
+    # textFromEventDict for error events: odd failures and "why" values
+    ed = {"isError": 1 if iserr else 0, "format": "%(isError)s"}
+    _legacy_message(ed, msel, 4)
     _set(ed, "failure", _fail(fail))
     if wsel == 1:
         ed["why"] = "reason"
@@ -822,11 +913,7 @@ def legacy_text(msel: int, va: int, fsel: int, iserr: bool, fail: int, wsel: int
     elif wsel == 3:
         ed["why"] = b"\xff"
     cover()
-    if not _text_or_none(_tlog.textFromEventDict, ed):
-        return False
-    if "format" in ed and not _text(_tlog._safeFormat, ed["format"], ed):
-        return False
-    return True
+    return _text_or_none(_tlog.textFromEventDict, ed)
 
 
 def _prod(*dims):
@@ -836,19 +923,42 @@ def _prod(*dims):
     return out
 
 
+QVALS = (0, 4, 5, 8, 9, 12)     # quick tier, longest field bodies: int, raising __str__, raising __repr__,
+#                                  raising callable, callable returning a hostile object, attribute holder
+
+
+def _fmt_shards(tier):
+    n = BOUNDS[tier]["n"]
+    out = [("len(fmt) <= %d" % (n - 2),)]
+    out += [("len(fmt) == %d" % (n - 1), "%d <= va <= %d" % (a, a + 6)) for a in (0, 7)]
+    out += [("len(fmt) == %d" % n, "va == %d" % a) for a in range(NVAL)]
+    return [o + ("vb == 12",) for o in out]
+
+
+def _field_shards(tier):
+    m = BOUNDS[tier]["m"]
+    out = [("len(body) <= %d" % (m - 2), "%d <= va <= %d" % (a, a + 6)) for a in (0, 7)]
+    out += [("len(body) == %d" % (m - 1), "va == %d" % a) for a in range(NVAL)]
+    out += [("len(body) == %d" % m, "va == %d" % a) for a in (QVALS if tier == "quick" else range(NVAL))]
+    return [o + ("vb == 12",) for o in out]
+
+
+def _flat_shards(tier):
+    m = BOUNDS[tier]["f"]
+    out = [("len(body) <= %d" % (m - 1), "how == 0"), ("how >= 1",)]
+    out += [("len(body) == %d" % m, "how == 0", "va == %d" % a) for a in (QVALS if tier == "quick" else range(NVAL))]
+    return out
+
+
 HARNESSES = [
-    H(fmt_event, shards=lambda tier: [("len(fmt) == %d" % i, "va == %d" % a, "vb == 12")
-                                      for i in range(0, BOUNDS[tier]["n"] + 1) for a in range(NVAL)],
-      timeout={"quick": 60, "thorough": 900}),
-    H(field_event, shards=lambda tier: [("len(body) == %d" % i, "va == %d" % a, "vb == 12")
-                                        for i in range(0, BOUNDS[tier]["m"] + 1) for a in range(NVAL)],
-      timeout={"quick": 60, "thorough": 900}),
-    H(flat_event, shards=lambda tier: [("len(body) == %d" % i, "how == %d" % h)
-                                       for i in range(0, BOUNDS[tier]["m"] + 1) for h in range(6)],
-      timeout={"quick": 60, "thorough": 900}, labels=("end", "flattened")),
-    H(unformattable, shards=lambda tier: _prod(("err", NERR)), timeout={"quick": 60, "thorough": 300}),
-    H(as_text, shards=lambda tier: _prod(("fsel", NFMT)), timeout={"quick": 60, "thorough": 900}),
-    H(legacy_text, shards=lambda tier: _prod(("msel", 4)), timeout={"quick": 60, "thorough": 600}),
+    H(fmt_event, shards=_fmt_shards, timeout={"quick": 90, "thorough": 1200}),
+    H(field_event, shards=_field_shards, timeout={"quick": 120, "thorough": 1500}),
+    H(flat_event, shards=_flat_shards, timeout={"quick": 90, "thorough": 1200}, labels=("end", "flattened")),
+    H(unformattable, timeout={"quick": 60, "thorough": 300}),
+    H(as_text, shards=lambda tier: _prod(("fsel", NFMT)), timeout={"quick": 60, "thorough": 600}),
+    H(sys_fields, shards=lambda tier: _prod(("lsel", NLEVEL)), timeout={"quick": 60, "thorough": 600}),
+    H(legacy_format, shards=lambda tier: _prod(("msel", 4)), timeout={"quick": 60, "thorough": 600}),
+    H(legacy_error, timeout={"quick": 60, "thorough": 600}),
 ]
 
 VECTORS = {
